@@ -34,4 +34,25 @@ example : get? (mergedOptions { syn := some (T.lit "xsl") } []) "output.selfClos
 example : get? (mergedOptions { syn := some (T.lit "xsl"), options := some [("output.selfClosingStyle", .s (T.lit "html"))] } [])
     "output.selfClosingStyle" = some (.s (T.lit "html")) := by decide +kernel
 
+open T (lit)
+/-- `Config.__init__` defaults over the REGENERATED tables: no type means markup; no syntax means the default syntax of the type (html / css); an
+unknown type falls back to html -/
+theorem C20_defaults :
+    typeOf {} = lit "markup" ∧ syntaxOf {} = lit "html" ∧ syntaxOf { type := some (lit "stylesheet") } = lit "css"
+    ∧ syntaxOf { type := some (lit "markup") } = lit "html" ∧ syntaxOf { type := some (lit "nonsense") } = lit "html" := by decide +kernel
+
+/-- a layer that is absent, or that does not mention the key, leaves the key untouched (any layers around it, any key) -/
+theorem C20_silent_layer {κ ν : Type} [DecidableEq κ] (pre post : List (Option (Dict κ ν))) (l : Option (Dict κ ν)) (k : κ)
+    (h : match l with | some e => lastIn e k = none | none => True) :
+    firstDefined (pre ++ l :: post) k = firstDefined (pre ++ post) k := by
+  induction pre with
+  | nil =>
+    simp only [List.nil_append, firstDefined]
+    cases hp : firstDefined post k with
+    | some v => rfl
+    | none => cases l with
+      | none => rfl
+      | some e => simpa using h
+  | cons x xs ih => simp only [List.cons_append, firstDefined, ih]
+
 end EmmetProps
